@@ -368,6 +368,8 @@ struct World
             }
             std::string s = obsPacket(*p);
             out << s << "\n";
+            if (!p->payload)
+                out << "NOPAYLOAD\n";
             late.emplace_back(p, s);
         }
     }
